@@ -296,13 +296,14 @@ func runTraceCrash(e *simcore.Env, tp *simcore.Tape) {
 		time.Sleep(time.Duration(tp.Range(1, 600)) * time.Minute)
 		synctest.Wait()
 		plan := m.GenPlan(tp, wl.TracePlanOpts{
-			NowMs: time.Now().UnixMilli(), MaxDaysBack: tp.Choose(2), SpreadMs: []int64{0, 1000, 3600_000}[tp.Choose(3)],
+			NowMs: time.Now().UnixMilli(), MaxDaysBack: tp.Weighted(3, 1), SpreadMs: []int64{0, 1000, 3600_000}[tp.Choose(3)],
 			MinTraces: 2, MaxTraces: 8, MaxSpans: 6, NullOK: true,
 		})
 		e.Event("trace schema tags=%v durRule=%v tsRule=%v flags=%v merge-concurrency=%d publisher-yield=%d traces=%d batches=%d",
 			s.Tags, s.DurRuleTags, s.TsRule, flags, simnode.TraceMergeConcurrency, pubYield, len(plan.TraceIDs), len(plan.Batches))
 		var batches []batchInfo
 		dayOf := map[int64]int64{}
+		tables := map[int64]bool{}
 		ver := uint64(1)
 		var sample []string
 		nextBatch := 0
@@ -353,6 +354,12 @@ func runTraceCrash(e *simcore.Env, tp *simcore.Tape) {
 					d := sp.Ts / 86400_000
 					dayOf[sp.Wid] = d
 					traceIDs[sp.TraceID] = true
+					if tables[d] = true; len(tables) == 2 {
+						// two tables flush, merge and publish on their own goroutines at the same simulated instants: the
+						// order of their operations in the journal is decided by the real scheduler
+						e.FreeRunning()
+						e.Probe("reach.history_spans_tables")
+					}
 					if byDay[d] == nil {
 						byDay[d] = &batchInfo{ackIdx: simos.Len()}
 						days = append(days, d)
